@@ -32,52 +32,155 @@ def _cmp_canon(op, a, b):
     return (op, a, b)
 
 
+def _lin(o, depth=0):
+    """linear form {symbol: coefficient} over arg / lbound / ubound / '1' of an origin, or None"""
+    if depth > 12:
+        return None
+    k = o[0]
+    if k in ("ref", "deref", "clone", "cast"):
+        return _lin(o[1], depth + 1)
+    if k == "field" and o[2] in ("0", 0) and o[1][0] == "bin":
+        return _lin(o[1], depth + 1)
+    if k == "const":
+        import re as _re
+        m = _re.fullmatch(r"(-?\d+)(_[iu](\d+|size))?", str(o[1]))
+        if m:
+            return {"1": int(m.group(1))}
+        return None
+    pair = None
+    if k == "bin" and o[1] in ("Add", "AddWithOverflow", "Sub", "SubWithOverflow"):
+        pair = (1 if o[1].startswith("Add") else -1, o[2], o[3])
+    elif k == "call" and len(o[2]) == 2 and str(o[1]).split("::")[-1] in ("add", "sub") and "ops::arith" in str(o[1]).replace("std::ops::", "ops::arith::").replace("core::ops::", "ops::arith::"):
+        pair = (1 if str(o[1]).split("::")[-1] == "add" else -1, o[2][0], o[2][1])
+    if pair is not None:
+        x, y = _lin(pair[1], depth + 1), _lin(pair[2], depth + 1)
+        if x is None or y is None:
+            return None
+        out = dict(x)
+        for kk, v in y.items():
+            out[kk] = out.get(kk, 0) + pair[0] * v
+        return {kk: v for kk, v in out.items() if v}
+    if k in ("bin", "call", "agg", "un", "unknown"):
+        return None
+    r = _role(o)
+    if r:
+        return {r: 1}
+    return None
+
+
+def _sub(x, y, plus=0):
+    out = dict(x)
+    for kk, v in y.items():
+        out[kk] = out.get(kk, 0) - v
+    out["1"] = out.get("1", 0) + plus
+    return {kk: v for kk, v in out.items() if v}
+
+
+def _show_le0(f):
+    """the error condition `f <= 0` in words"""
+    if f.get("arg") == 1 and f.get("lbound") == -1 and set(f) <= {"arg", "lbound", "1"}:
+        return "arg <= lbound - %d" % f.get("1", 0) if f.get("1", 0) != 1 else "arg < lbound"
+    if f.get("arg") == -1 and f.get("ubound") == 1 and set(f) <= {"arg", "ubound", "1"}:
+        return "arg >= ubound + %d" % f.get("1", 0) if f.get("1", 0) != 1 else "arg > ubound"
+    return " + ".join("%s*%s" % (v, kk) for kk, v in sorted(f.items())) + " <= 0"
+
+
 def r2_abs_index(ctx, rule="C04.R2"):
+    """Every index is refused below its lower and above its upper bound.  The guard is read as linear inequalities over
+    (arg, lbound, ubound): each comparison whose true edge returns the subscript error, and each `range.contains(x)`
+    whose false edge does, is normalised to `f <= 0`; the two error conditions have to be exactly arg < lbound
+    (arg - lbound + 1 <= 0) and arg > ubound (ubound - arg + 1 <= 0), however they are spelled (`arg > ubound`,
+    `arg - lbound >= size`, `!(0..size).contains(&(arg - lbound))` ...)."""
     prog = ctx.prog
     fn = ctx.anchor_method("VArray", "abs_index")
     body = fn.body
     pv = mir.Prov(body)
-    cmps = []
-    for b, blk in enumerate(body.blocks):
-        if blk.get("c"):
-            continue
-        for s in blk["s"]:
-            if s["k"] == "assign" and s["r"]["k"] == "bin" and s["r"]["op"] in ("Lt", "Le", "Gt", "Ge") \
-                    and not s.get("mx"):
-                a = _role(pv.of_operand(s["r"]["a"]))
-                c = _role(pv.of_operand(s["r"]["b"]))
-                if a and c:
-                    cmps.append((b, s["p"][0], s["r"]["op"], a, c))
     err_blocks = {b for b, blk in enumerate(body.blocks) for s in blk["s"]
                   if s["k"] == "assign" and s["r"]["k"] == "agg" and s["r"].get("variant") == "Err"
                   and s["r"].get("adt") == "core::result::Result"}
     accum = [b for b, blk in enumerate(body.blocks) for s in blk["s"]
              if s["k"] == "assign" and s["r"]["k"] == "bin" and s["r"]["op"] in ("MulWithOverflow", "Mul")
              and not blk.get("c")]
-    want = {("Lt", "arg", "lbound"): "index below the lower bound", ("Gt", "arg", "ubound"): "index above the upper bound"}
-    found = {}
-    for b, local, op, a, c in cmps:
-        canon = (op, a, c) if a == "arg" else ({"Lt": "Gt", "Gt": "Lt", "Le": "Ge", "Ge": "Le"}[op], c, a)
+
+    def edge_leads_to_err(b, local, on_true):
         t = body.term(b)
-        leads = False
-        if t["k"] == "switch" and mir.op_place(t["o"]) and mir.op_place(t["o"])[0] == local:
-            true_t = t["else"]
-            false_t = [tg for v, tg in t["ts"] if v == 0]
-            r = body.reachable(true_t, avoid=set(false_t) | set(accum))
-            leads = bool(r & err_blocks)
-        found[canon] = (b, leads)
-    for canon, what in want.items():
-        key = "%s:%s" % (rule, "%s-%s-%s" % (canon[1], {"Lt": "lt", "Gt": "gt"}[canon[0]], canon[2]))
-        got = found.get(canon)
-        ctx.decide(got is not None and got[1], rule, key, fn.loc, "%s -> SubscriptOutOfRange" % what,
-                   "abs_index has no comparison `%s %s %s` whose true edge returns the subscript error "
-                   "(comparisons found: %s): an %s is accepted"
-                   % (canon[1], {"Lt": "<", "Gt": ">"}[canon[0]], canon[2],
-                      sorted("%s %s %s" % (k[1], k[0], k[2]) for k in found), what))
-        if got is not None and accum:
-            ctx.decide(all(body.dominates(got[0], x) for x in accum), rule, key + ":dominates-offset", fn.loc,
-                       "the check dominates the offset arithmetic",
-                       "the bounds check no longer dominates the offset computation")
+        if t["k"] != "switch" or not mir.op_place(t["o"]) or mir.op_place(t["o"])[0] != local:
+            return False
+        false_t = [tg for v, tg in t["ts"] if v == 0]
+        if not false_t:
+            return False
+        start, avoid = (t["else"], set(false_t)) if on_true else (false_t[0], {t["else"]})
+        return bool(body.reachable(start, avoid=avoid | set(accum)) & err_blocks)
+
+    conds = []      # (block, error condition as linear form f: f <= 0)
+    for b, blk in enumerate(body.blocks):
+        if blk.get("c"):
+            continue
+        for s in blk["s"]:
+            if s["k"] == "assign" and s["r"]["k"] == "bin" and s["r"]["op"] in ("Lt", "Le", "Gt", "Ge") and not s.get("mx"):
+                x, y = _lin(pv.of_operand(s["r"]["a"])), _lin(pv.of_operand(s["r"]["b"]))
+                if x is None or y is None or not ({"arg"} & (set(x) | set(y))):
+                    continue
+                op = s["r"]["op"]
+                f = {"Lt": _sub(x, y, 1), "Le": _sub(x, y), "Gt": _sub(y, x, 1), "Ge": _sub(y, x)}[op]
+                if edge_leads_to_err(b, s["p"][0], True):
+                    conds.append((b, f))
+        t = blk["t"]
+        if t["k"] == "call" and mir.callee_path(t).endswith("::contains") and "ops::Range" in mir.callee_path(t).replace("range::", "") \
+                and len(t["args"]) == 2:
+            rng = mir.strip_all(pv.of_operand(t["args"][0]))
+            item = _lin(pv.of_operand(t["args"][1]))
+            lo = hi = None
+            if rng[0] == "agg" and len(rng[3]) == 2:
+                lo, hi = _lin(rng[3][0]), _lin(rng[3][1])
+            elif rng[0] == "call" and len(rng[2]) == 2:
+                lo, hi = _lin(rng[2][0]), _lin(rng[2][1])
+            inclusive = "RangeInclusive" in mir.callee_path(t) or (rng[0] == "call" and "RangeInclusive" in str(rng[1]))
+            d = t.get("d")
+            nxt = t.get("t")
+            if item is None or lo is None or hi is None or d is None or nxt is None:
+                continue
+            # the result may be negated before it is tested: follow it to the switch
+            tested = None
+            for bb in [nxt] + list(body.succ(nxt)):
+                tt = body.term(bb)
+                if tt["k"] == "switch" and mir.op_place(tt["o"]) is not None:
+                    o = pv.of_operand(tt["o"])
+                    neg = False
+                    while o[0] == "un" and o[1] == "Not":
+                        neg = not neg
+                        o = o[2]
+                    if o[0] == "call" and str(o[1]).endswith("::contains"):
+                        tested = (bb, mir.op_place(tt["o"])[0], neg)
+                        break
+            if tested is None:
+                continue
+            bb, local, neg = tested
+            # not contained -> error: the edge on which `contains` is false
+            if edge_leads_to_err(bb, local, on_true=neg):
+                conds.append((bb, _sub(item, lo, 1)))                       # item < lo
+                conds.append((bb, _sub(hi, item, 1) if inclusive else _sub(hi, item)))   # item > hi / item >= hi
+    want = {"arg-lt-lbound": ({"arg": 1, "lbound": -1, "1": 1}, "index below the lower bound", ("arg", "lbound")),
+            "arg-gt-ubound": ({"ubound": 1, "arg": -1, "1": 1}, "index above the upper bound", ("arg", "ubound"))}
+    for name, (form, what, syms) in want.items():
+        key = "%s:%s" % (rule, name)
+        exact = [b for b, f in conds if f == form]
+        near = [f for b, f in conds if set(f) - {"1"} == set(syms) and f != form
+                and (f.get("arg", 0) > 0) == (form["arg"] > 0)]
+        if exact:
+            ctx.ok(rule, key, fn.loc, "%s -> SubscriptOutOfRange" % what)
+            if accum:
+                ctx.decide(all(body.dominates(exact[0], x) for x in accum), rule, key + ":dominates-offset", fn.loc,
+                           "the check dominates the offset arithmetic",
+                           "the bounds check no longer dominates the offset computation")
+        elif near:
+            ctx.violation(rule, key, fn.loc,
+                          "abs_index refuses an index only when %s (wanted: %s): an %s by one is accepted and lands in a "
+                          "neighbouring element" % (" / ".join(_show_le0(f) for f in near), _show_le0(form), what))
+        else:
+            ctx.violation(rule, key, fn.loc,
+                          "abs_index has no test whose failing edge returns the subscript error for an %s (error conditions "
+                          "found: %s): it is accepted" % (what, sorted(_show_le0(f) for _b, f in conds)))
     ctx.require(rule, 4)
 
 
